@@ -392,6 +392,7 @@ class HookEval:
             self.tparam = "_"
         self.locals: dict[str, tuple] = {}
         self._inline_depth = 0
+        self.hook_aliases = {}
         self.accums = {}
         self.nestedfns = {}
         # names bound to folded VALUES (strings, type objects, tables) by helper inlining / loop unrolling
@@ -476,12 +477,31 @@ class HookEval:
                     return self.sh.types.resolve(value_to_ty(self.sh.types, v).ty)
             raise
 
+    def _pin_types(self, elt, var, w, extra):
+        """Locals naming an input-dependent structure target that an element expression uses (`T = A if test else B` /
+        `... for x in value: structure(x, T)`): T is computed once, before the loop, so it is resolved here, in the world
+        of the whole value, and handed to the element worlds as a fixed type."""
+        from .hooks import TyVal
+        pinned = {}
+        for n_ in ast.walk(elt):
+            if isinstance(n_, ast.Name) and n_.id != var and n_.id not in pinned:
+                fv = self._frame_value(n_.id)
+                if isinstance(fv, _LocalExpr) or (fv is None and n_.id in self.localexprs):
+                    try:
+                        ty = self._type_in_world(n_, w, extra)
+                    except AnalysisError:
+                        continue            # not a type (a boolean local, ...): left to the element world
+                    pinned[n_.id] = TyVal(ty)
+        return pinned
+
     def _type_in_world(self, node, w, extra):
         """structure target that may depend on the input through a conditional expression (directly or via a local)"""
         if isinstance(node, ast.Name):
             fv = self._frame_value(node.id)
             if isinstance(fv, _LocalExpr):
                 return self._type_in_world(fv.expr, w, {**fv.extra, **(extra or {})})
+            if type(fv).__name__ == "TyVal":
+                return self.sh.types.resolve(fv.ty)
         if isinstance(node, ast.Name) and node.id in self.localexprs:
             expr, ex = self.localexprs[node.id]
             return self._type_in_world(expr, w, {**ex, **(extra or {})})
@@ -490,7 +510,44 @@ class HookEval:
             if isinstance(r, tuple):
                 raise AnalysisError(f"{self.rel}:{node.lineno}: the test choosing a structure target raises in {self.name}: {r[1]}")
             return self._type_in_world(node.body if r else node.orelse, w, extra)
+        if isinstance(node, ast.Call) and isinstance(node.func, ast.Name) and not node.keywords and node.args \
+                and any(self.path_of(a, extra) is not None for a in node.args):
+            # a helper of the package that *chooses* the class from the value: inlined, its returns are type expressions
+            hf = self.helper_fn(node.func.id)
+            if hf is not None and len(hf.args.args) == len(node.args) and self._inline_depth < 4:
+                b = self._bind_args(hf, node.args, extra)
+                if b is not None:
+                    extra2, frame = b
+                    self._inline_depth += 1
+                    self.valenv.append(frame)
+                    try:
+                        r = self._type_block(self._body_of(hf), w, extra2, hf)
+                    finally:
+                        self.valenv.pop()
+                        self._inline_depth -= 1
+                    if r is None:
+                        raise AnalysisError(f"{self.rel}:{node.lineno}: helper {node.func.id} used as a structure target may return nothing")
+                    return r
         return self.target_type(node)
+
+    def _type_block(self, body, w, extra, fn):
+        for st in body:
+            if isinstance(st, ast.Expr) and isinstance(st.value, ast.Constant):
+                continue
+            if isinstance(st, ast.Return):
+                if st.value is None:
+                    return None
+                return self._type_in_world(st.value, w, extra)
+            if isinstance(st, ast.If):
+                r = self._decide(st.test, w, extra)
+                if isinstance(r, tuple):
+                    raise AnalysisError(f"{self.rel}:{st.lineno}: the test choosing a structure target raises in {getattr(fn, 'name', '?')}: {r[1]}")
+                sub = self._type_block(st.body if r else st.orelse, w, extra, fn)
+                if sub is not None:
+                    return sub
+                continue
+            raise AnalysisError(f"{self.rel}:{st.lineno}: statement {type(st).__name__} in type-choosing helper {getattr(fn, 'name', '?')}")
+        return None
 
     # ---------------------------------------------------------------- access paths
     def path_of(self, node, extra: dict | None = None):
@@ -1173,6 +1230,7 @@ class HookEval:
         self.localvals = {}
         self.localexprs = {}
         self.conv_aliases = set()
+        self.hook_aliases = {}
         self.accums = {}
         self.nestedfns = {}
         r = self._exec_block(fn.body, w)
@@ -1224,6 +1282,18 @@ class HookEval:
                 self.accums[(self._inline_depth, st.targets[0].id)] = None
                 self.localvals[st.targets[0].id] = []
                 continue
+            if isinstance(st, ast.Assign) and len(st.targets) == 1 and isinstance(st.targets[0], ast.Tuple) \
+                    and isinstance(st.value, ast.Tuple) and len(st.value.elts) == len(st.targets[0].elts) \
+                    and all(isinstance(e_, ast.Name) for e_ in st.targets[0].elts):
+                # `a, b = X[0], X[1]`: one binding per position (no name on the left is read on the right)
+                lhs = {e_.id for e_ in st.targets[0].elts}
+                if not any(isinstance(n_, ast.Name) and n_.id in lhs for n_ in ast.walk(st.value)):
+                    parts = [ast.copy_location(ast.Assign(targets=[t_], value=v_), st)
+                             for t_, v_ in zip(st.targets[0].elts, st.value.elts)]
+                    for p_ in parts:
+                        ast.fix_missing_locations(p_)
+                    res = self._exec_block(parts + list(body[i_ + 1:]), w, extra)
+                    return res
             if isinstance(st, ast.Assign):
                 st = self._norm_assign(st)
             if isinstance(st, ast.Raise):
@@ -1258,8 +1328,16 @@ class HookEval:
                     if v is not self._NOVALUE:
                         self.localvals[st.targets[0].id] = v
                         continue
+                if isinstance(st.value, ast.Call) and dotted(st.value.func) == f"{self.conv}.get_structure_hook" \
+                        and len(st.value.args) == 1 and not st.value.keywords:
+                    # `h = converter.get_structure_hook(T)` ... `h(x, T)` is `converter.structure(x, T)`
+                    self.hook_aliases[st.targets[0].id] = ast.unparse(st.value.args[0])
+                    continue
                 if isinstance(st.value, (ast.IfExp, ast.BoolOp, ast.Compare, ast.UnaryOp)) or (
-                        isinstance(st.value, ast.Call) and dotted(st.value.func) in ("isinstance", "any", "all", "len", "bool")):
+                        isinstance(st.value, ast.Call) and dotted(st.value.func) in ("isinstance", "any", "all", "len", "bool")) or (
+                        isinstance(st.value, ast.Call) and isinstance(st.value.func, ast.Name) and not st.value.keywords
+                        and self.helper_fn(st.value.func.id) is not None
+                        and any(self.path_of(a_, extra) is not None for a_ in st.value.args)):
                     # `item_type = A if <test on the input> else B` / `is_command = "command" in object_ and ...`:
                     # kept as an expression and resolved in the world where it is used
                     self.localexprs[st.targets[0].id] = (st.value, dict(extra or {}))
@@ -1364,7 +1442,8 @@ class HookEval:
                     raise AnalysisError(f"{self.rel}:{st.lineno}: {name} in {self.name} is appended to by more than one loop "
                                         "(or is not a fresh list)")
                 self.accums[key] = Leaf("each", node=st, path=p, var=st.target.id, elt=elt, ifs=[],
-                                        frames=[dict(f) for f in self.valenv], extra=dict(extra or {}))
+                                        frames=[dict(f) for f in self.valenv] + [self._pin_types(elt, st.target.id, w, extra)],
+                                        extra=dict(extra or {}))
                 return None
             raise AnalysisError(f"{self.rel}:{st.lineno}: loop over the input in {self.name} is not of the form "
                                 "`for x in value: if TEST: return ...`")
@@ -1507,6 +1586,10 @@ class HookEval:
                 p = self.path_of(node.args[0], extra)
                 if p is not None:
                     return Leaf("coerce", node=node, path=p, to=d)
+            if isinstance(node.func, ast.Name) and node.func.id in self.hook_aliases and len(node.args) == 2 and not node.keywords:
+                if ast.unparse(node.args[1]) != self.hook_aliases[node.func.id]:
+                    raise AnalysisError(f"{self.rel}:{node.lineno}: a structure hook fetched for one type is called for another in {self.name}")
+                d = f"{self.conv}.structure"
             if (d == f"{self.conv}.structure" or (isinstance(node.func, ast.Name) and node.func.id in self.conv_aliases)) \
                     and len(node.args) == 2 and not node.keywords:
                 p = self.path_of(node.args[0], extra)
@@ -1587,7 +1670,8 @@ class HookEval:
                     ast.copy_location(elt, node)
                     ast.fix_missing_locations(elt)
                     return Leaf("each", node=node, path=p, var=var, elt=elt, ifs=[],
-                                frames=[dict(f) for f in self.valenv], extra=dict(extra or {}))
+                                frames=[dict(f) for f in self.valenv] + [self._pin_types(elt, var, w, extra)],
+                                extra=dict(extra or {}))
         if isinstance(node, ast.ListComp) and len(node.generators) == 1:
             g = node.generators[0]
             if isinstance(g.target, ast.Name) and not g.is_async:
@@ -1596,7 +1680,8 @@ class HookEval:
                     # the element expression is evaluated later (per element alternative): it keeps the value
                     # environment of the place it was written in (helper parameters, unrolled loop variables)
                     return Leaf("each", node=node, path=p, var=g.target.id, elt=node.elt, ifs=g.ifs,
-                                frames=[dict(f) for f in self.valenv], extra=dict(extra or {}))
+                                frames=[dict(f) for f in self.valenv] + [self._pin_types(node.elt, g.target.id, w, extra)],
+                                extra=dict(extra or {}))
         raise AnalysisError(f"{self.rel}:{getattr(node, 'lineno', '?')}: unsupported return expression in "
                             f"{self.name}: {ast.unparse(node)[:80]}")
 
